@@ -221,6 +221,23 @@ def run_impl(case):
                      neg_groups=np.array(case["ng"]) if case["ng"] else np.array([], dtype=int if case["kind"] == "int" else str),
                      score_class=case["sc"], equal_class=case["ec"], group_names=case["names"], is_sorted=case["is_sorted"])
     out = {"ctor": _observe(case, gs), "swap": _observe(case, gs.swap())}
+    # the factory: the same data interleaved (labels, scores, groups), positive label 1 or "p"
+    if case["names"] is None and len(pos) + len(neg) > 0 and not case["is_sorted"]:
+        import random as _random
+        g_ = _random.Random(len(pos) * 31 + len(neg))
+        order = list(range(len(pos) + len(neg)))
+        g_.shuffle(order)
+        pl = g_.choice([1, "p", True])
+        nl = {1: [0, 2], "p": ["n", "q"], True: [False]}[pl]
+        lab_all = [pl] * len(pos) + [g_.choice(nl) for _ in neg]
+        sc_all = np.concatenate([pos, neg])
+        gr_all = list(case["pg"]) + list(case["ng"])
+        fl_obj = GroupScores.from_labels(np.array([lab_all[i] for i in order], dtype=object if pl == "p" else None),
+                                         sc_all[order], np.array([gr_all[i] for i in order]), pos_label=pl,
+                                         score_class=case["sc"], equal_class=case["ec"])
+        out["from_labels"] = _observe(case, fl_obj)
+        out["from_labels_cm"] = [[int(v) for v in fl_obj.cm(fl(t)).matrix.reshape(-1)] for t in case["thr"]]
+        out["ctor_cm"] = [[int(v) for v in gs.cm(fl(t)).matrix.reshape(-1)] for t in case["thr"]]
     items = []
     for g in out["ctor"]["groups"] + [case["unknown"]]:
         try:
@@ -463,6 +480,18 @@ def oracle(case, res):
                 tot = [sum(r["gcm"][j][gi][k] for gi in range(len(c["groups"]))) for k in range(4)]
                 if tot != r["cm"][j]:
                     fails.append(("C12/group-cm-sum", f"group matrices sum to {tot} at {t}, overall matrix is {r['cm'][j]}"))
+    # from_labels builds the same object (pairs, flags, groups) from interleaved label / score / group arrays
+    if "from_labels" in r:
+        fo = r["from_labels"]
+        if (fo["sc"], fo["ec"]) != (case["sc"], case["ec"]):
+            fails.append(("C12/from_labels/flags", f"from_labels object has ({fo['sc']},{fo['ec']}), requested ({case['sc']},{case['ec']})"))
+        if sorted(zip(fo["pos"], fo["pg"])) != sorted(zip(c["pos"], c["pg"])) or sorted(zip(fo["neg"], fo["ng"])) != sorted(zip(c["neg"], c["ng"])):
+            fails.append(("C12/from_labels/pairing", "(score, label) pairs of the from_labels object differ from the pairs given"))
+        if fo["groups"] != c["groups"]:
+            fails.append(("C12/from_labels/group-names", f"from_labels groups {fo['groups']} != {c['groups']}"))
+        if r["from_labels_cm"] != r["ctor_cm"]:
+            fails.append(("C12/from_labels/cm", f"confusion matrices of the from_labels object {r['from_labels_cm']} differ from the "
+                          f"constructor object's {r['ctor_cm']}"))
     # samples
     for smp, o in zip(case["samples"], r["samples"]):
         if not sample_in_quantifier(case, smp):
